@@ -36,10 +36,14 @@ class Monitor:
         self.traces = 0
         self.steps = 0
         self.limit = 10 ** 9
+        self.lr_limit = 10 ** 9
 
     def start(self, limit):
         self.steps = 0
         self.limit = limit
+        # an LR parse of a short input needs tens of steps; the stack of a
+        # looping one grows with every step, so its budget is tighter
+        self.lr_limit = min(limit, 3000)
 
 
 _devnull = io.StringIO()
@@ -100,11 +104,13 @@ def instrument_lr(parser, mon, tag=0, states=True):
     def on_step():
         mon.steps += 1
         mon.transitions += 1
-        if states:
-            mon.states.add(hash((tag, tuple(n.state.state_id
-                                            for n in parser.parse_stack))))
-        if mon.steps > mon.limit:
+        if mon.steps > mon.lr_limit:
             raise BudgetExceeded("lr steps")
+        if states:
+            stack = parser.parse_stack
+            if len(stack) <= 64:
+                mon.states.add(hash((tag, tuple(n.state.state_id
+                                                for n in stack))))
     _wrap(parser, "_call_shift_action", on_step)
     _wrap(parser, "_call_reduce_action", on_step)
     if parser.layout_parser is not None:
